@@ -24,7 +24,7 @@ def run_demo(wt, demo, pid, tag):
     out = "/tmp/sw/%s_demo_%s" % (pid, tag)
     results = []
     variants = [""]
-    if pid.startswith("C17") or pid.startswith("C20"): variants = ["", "-D__sparc"]
+    if pid.startswith(("C17", "C20", "C07", "C08")): variants = ["", "-D__sparc"]
     for var in variants:
         r = sh(demo_cmd(demo, out, var), cwd=wt)
         if r.returncode != 0:
@@ -60,7 +60,8 @@ def main():
                 sh("rm -rf _b", cwd=wt)
                 mut = run_demo(wt, demo, pid + m, "mut")
                 rec["demo_without_change"] = base; rec["demo_with_change"] = mut
-                rec["demo_ok"] = all(b[0] == 0 for b in base) and any(x[0] != 0 for x in mut)
+                # the demonstration discriminates in at least one build configuration (default, big-endian)
+                rec["demo_ok"] = any(b[0] == 0 and x[0] != 0 for b, x in zip(base, mut))
                 # our check
                 env = dict(os.environ, SBDF_REPO=wt)
                 shutil.rmtree(V + "/replays", ignore_errors=True)
